@@ -191,8 +191,8 @@ def check(run):
         recs = c05.mc_edge(run, 'g1', N=2, P=2, WD=2, shapes=['Reg', 'RegE', 'Not'], rvs=[0, 1], gated=True,
                            invecs=[[0, 0], [1, 2], [2, 0], [0, 3]], cycles=3, maxn=2, mod=16)
         c05.replay_records(run, recs, 2, 2, 'mc-gated-2')
-        recs = c05.mc_edge(run, 'g2', N=3, P=1, WD=1, shapes=['Reg', 'RegE', 'Not'], rvs=[0, 1], gated=True,
-                           invecs=[[0], [1]], cycles=3, maxn=2, mod=64)
+        recs = c05.mc_edge(run, 'g2', N=3, P=1, WD=1, shapes=['Reg', 'Not'], rvs=[0, 1], gated=True,
+                           invecs=[[0], [1]], cycles=2, maxn=2, mod=32)
         c05.replay_records(run, recs, 1, 1, 'mc-gated-3')
         part_b(run, 8000, 30)
     run.assumptions += ['TLC model has two domains (one gated by an arbitrary wire); three or more domains and hierarchy '
